@@ -28,19 +28,72 @@
 //                                                     (one JSON array of op records per line)
 //   c11_intrusive probe_drop_self         (a callback that drops its OWN connection; observation)
 //   flavours: list, and [u][v]sig[0|2]   (u = unregister::base, v = void result, arity 0/1/2)
+//
+// UNITS.  This file is normally compiled as a whole (the full harness).  If that does not compile
+// against the tree under test, checks/c11.py compiles three CORE units from it separately
+// (harness/c11_core_{list,sig,usig}.cpp define C11_CORE_LIST / C11_CORE_SIG / C11_CORE_USIG and
+// include this file): each contains only what the STATEMENT of C11 names - lists and elements;
+// signals and connections; signals with unregister callbacks - and none of the observed-only
+// parts (unlink(), the held iterator, const iteration, auto_connection_container,
+// optional_auto_connection, reentrant operations, the probe).  A core unit that does not compile
+// is a verdict about the tree (C11:<unit>:does-not-compile); if only the full harness fails, the
+// in-scope histories are still driven with the core units and the failure is an observation.
 #include <common/vjson.hpp>
 
+#if defined(C11_CORE_LIST) || defined(C11_CORE_SIG) || defined(C11_CORE_USIG)
+#define C11_CORE 1
+#define C11_WITH_EXTRAS 0
+#ifdef C11_CORE_LIST
+#define C11_WITH_LIST 1
+#else
+#define C11_WITH_LIST 0
+#endif
+#ifdef C11_CORE_SIG
+#define C11_WITH_PLAIN 1
+#else
+#define C11_WITH_PLAIN 0
+#endif
+#ifdef C11_CORE_USIG
+#define C11_WITH_UNREG 1
+#else
+#define C11_WITH_UNREG 0
+#endif
+#else
+#define C11_CORE 0
+#define C11_WITH_EXTRAS 1
+#define C11_WITH_LIST 1
+#define C11_WITH_PLAIN 1
+#define C11_WITH_UNREG 1
+#endif
+#define C11_WITH_SIGNALS (C11_WITH_PLAIN || C11_WITH_UNREG)
+
+#if C11_WITH_LIST
 #include <fcppt/intrusive/base.hpp>
 #include <fcppt/intrusive/list.hpp>
+#endif
+#if C11_WITH_SIGNALS
 #include <fcppt/signal/auto_connection.hpp>
-#include <fcppt/signal/auto_connection_container.hpp>
-#include <fcppt/signal/base.hpp>
 #include <fcppt/signal/object.hpp>
-#include <fcppt/signal/optional_auto_connection.hpp>
+#endif
+#if C11_WITH_PLAIN
+#include <fcppt/signal/base.hpp>
+#endif
+#if C11_WITH_UNREG
 #include <fcppt/signal/unregister/base.hpp>
 #include <fcppt/signal/unregister/function.hpp>
+#endif
+#if C11_WITH_SIGNALS && C11_WITH_EXTRAS
+#include <fcppt/signal/auto_connection_container.hpp>
+#include <fcppt/signal/optional_auto_connection.hpp>
+#endif
+
+#include <sys/time.h>
+#include <unistd.h>
 
 #include <array>
+#include <csignal>
+#include <cstdio>
+#include <exception>
 #include <memory>
 #include <optional>
 #include <string>
@@ -54,6 +107,13 @@ constexpr int NL = 3; // list / signal slots 1..NL
 constexpr int NE = 8; // element / connection / holder slots 1..NE
 constexpr int NB = 2; // connection containers 1..NB
 constexpr int walk_limit = 2 * (NL + NE);
+
+// a failure of the harness itself (bad script, unknown operation) - everything else that is thrown
+// while an operation is driven comes from the code under test
+struct harness_error : std::runtime_error
+{
+  using std::runtime_error::runtime_error;
+};
 
 struct op
 {
@@ -112,7 +172,9 @@ struct driver
   virtual std::string observe(int index, op const &) = 0;
   // level 0: only the operations the statement of C11 names; 1: all judged operations;
   // 2: also the reentrant (observed only) ones
-  virtual bool random_op(vj::Rng &, op &, int level) const = 0;
+  // dense: (level 0 only) mostly constructs elements / connections, preferably in the first live
+  // list / signal, so that a single list reaches the 6, 7, 8 members of the property's bound
+  virtual bool random_op(vj::Rng &, op &, int level, bool dense) const = 0;
   // the next operation that destroys something still alive (false: nothing is left)
   virtual bool next_cleanup(op &, unsigned order, vj::Rng *) const = 0;
   // how many destroying operations are needed to end the history now
@@ -120,6 +182,7 @@ struct driver
 };
 
 // ------------------------------------------------------------------------------ lists
+#if C11_WITH_LIST
 class elem;
 using list_t = fcppt::intrusive::list<elem>;
 
@@ -208,11 +271,14 @@ struct list_driver : driver
     if (n == "elem_ctor") return er(o.e) && lr(o.l) && !elive(o.e) && llive(o.l);
     if (n == "elem_move_ctor") return er(o.e) && er(o.e2) && !elive(o.e) && elive(o.e2);
     if (n == "elem_move_assign") return er(o.e) && er(o.e2) && o.e != o.e2 && elive(o.e) && elive(o.e2);
-    if (n == "elem_dtor" || n == "unlink") return er(o.e) && elive(o.e);
+    if (n == "elem_dtor") return er(o.e) && elive(o.e);
+#if C11_WITH_EXTRAS
+    if (n == "unlink") return er(o.e) && elive(o.e);
     if (n == "iter_begin" || n == "iter_end") return lr(o.l) && llive(o.l);
     if (n == "iter_inc") return can_inc();
     if (n == "iter_dec") return can_dec();
     if (n == "iter_drop") return it.has_value();
+#endif
     return false;
   }
 
@@ -230,6 +296,7 @@ struct list_driver : driver
     else if (o.name == "elem_move_ctor") e = std::make_unique<elem>(std::move(*e2), o.e);
     else if (o.name == "elem_move_assign") e->take(std::move(*e2));
     else if (o.name == "elem_dtor") e.reset();
+#if C11_WITH_EXTRAS
     else if (o.name == "unlink") e->unlink();
     else if (o.name == "iter_begin") it = l->begin();
     else if (o.name == "iter_end") it = l->end();
@@ -249,7 +316,8 @@ struct list_driver : driver
       }
     }
     else if (o.name == "iter_drop") it.reset();
-    else throw std::runtime_error("unknown list op " + o.name);
+#endif
+    else throw harness_error("unknown list op " + o.name);
   }
 
   std::string observe(int, op const &) override
@@ -273,6 +341,7 @@ struct list_driver : driver
           if (id == 0 || ++steps > walk_limit) { fok = false; break; }
           fwd.push_back((*i).id);
         }
+#if C11_WITH_EXTRAS
         steps = 0;
         for (list_t::const_iterator i = cl.begin(); i != cl.end(); ++i)
         {
@@ -280,6 +349,7 @@ struct list_driver : driver
           if (id == 0 || ++steps > walk_limit) { cok = false; break; }
           cfwd.push_back((*i).id);
         }
+#endif
         steps = 0;
         for (list_t::iterator i = l.end();;)
         {
@@ -301,16 +371,19 @@ struct list_driver : driver
     return ",\"lists\":" + lists_j.str() + ",\"elive\":" + vj::arr(el) + ",\"unreg\":[],\"iter\":" + ij.str();
   }
 
-  bool random_op(vj::Rng &rng, op &o, int const level) const override
+  bool random_op(vj::Rng &rng, op &o, int const level, bool const dense) const override
   {
     static std::vector<std::pair<char const *, int>> const w0 = {
         {"list_ctor", 4}, {"list_move_ctor", 3}, {"list_move_assign", 5}, {"list_dtor", 2}, {"elem_ctor", 8},
         {"elem_move_ctor", 3}, {"elem_move_assign", 3}, {"elem_dtor", 4}};
+    static std::vector<std::pair<char const *, int>> const wd = {
+        {"list_ctor", 2}, {"list_move_ctor", 1}, {"list_move_assign", 1}, {"list_dtor", 1}, {"elem_ctor", 16},
+        {"elem_move_ctor", 3}, {"elem_move_assign", 3}, {"elem_dtor", 2}};
     static std::vector<std::pair<char const *, int>> const w = {
         {"list_ctor", 4}, {"list_move_ctor", 3}, {"list_move_assign", 5}, {"list_dtor", 2}, {"elem_ctor", 8},
         {"elem_move_ctor", 3}, {"elem_move_assign", 3}, {"elem_dtor", 4}, {"unlink", 2},
         {"iter_begin", 3}, {"iter_end", 1}, {"iter_inc", 6}, {"iter_dec", 3}, {"iter_drop", 1}};
-    std::string const kind = weighted(rng, level == 0 ? w0 : w);
+    std::string const kind = weighted(rng, dense ? wd : level == 0 ? w0 : w);
     auto ll = lists(true), dl = lists(false), le = elems(true), de = elems(false);
     o = op{};
     o.name = kind;
@@ -323,7 +396,12 @@ struct list_driver : driver
       do o.l2 = pick(rng, ll); while (o.l2 == o.l);
     }
     else if (kind == "list_dtor" || kind == "iter_begin" || kind == "iter_end") { if (ll.empty()) return false; o.l = pick(rng, ll); }
-    else if (kind == "elem_ctor") { if (de.empty() || ll.empty()) return false; o.e = pick(rng, de); o.l = pick(rng, ll); }
+    else if (kind == "elem_ctor")
+    {
+      if (de.empty() || ll.empty()) return false;
+      o.e = pick(rng, de);
+      o.l = dense && rng.below(4) != 0 ? ll.front() : pick(rng, ll);
+    }
     else if (kind == "elem_move_ctor") { if (de.empty() || le.empty()) return false; o.e = pick(rng, de); o.e2 = pick(rng, le); }
     else if (kind == "elem_move_assign")
     {
@@ -362,7 +440,10 @@ struct list_driver : driver
   }
 };
 
+#endif // C11_WITH_LIST
+
 // ------------------------------------------------------------------------------ signals
+#if C11_WITH_SIGNALS
 struct overrun
 {
 };
@@ -387,11 +468,24 @@ template <> struct fn_type<0, false> { using type = void(); };
 template <> struct fn_type<1, false> { using type = void(int); };
 template <> struct fn_type<2, false> { using type = void(int, int); };
 
+template <typename F, bool Unr>
+struct sig_of;
+#if C11_WITH_PLAIN
+template <typename F> struct sig_of<F, false> { using type = fcppt::signal::object<F>; };
+#endif
+#if C11_WITH_UNREG
+template <typename F> struct sig_of<F, true> { using type = fcppt::signal::object<F, fcppt::signal::unregister::base>; };
+#endif
 template <int Arity, bool Res, bool Unr>
-using sig_type = std::conditional_t<
-    Unr,
-    fcppt::signal::object<typename fn_type<Arity, Res>::type, fcppt::signal::unregister::base>,
-    fcppt::signal::object<typename fn_type<Arity, Res>::type>>;
+using sig_type = typename sig_of<typename fn_type<Arity, Res>::type, Unr>::type;
+
+// a container of connections: fcppt::signal::auto_connection_container (observed only; the core
+// units use the vector it is documented to be, so that they do not depend on that header)
+#if C11_WITH_EXTRAS
+using box_t = fcppt::signal::auto_connection_container;
+#else
+using box_t = std::vector<fcppt::signal::auto_connection>;
+#endif
 
 // the owner of a connection: an auto_connection inside a std::optional or inside an
 // fcppt::signal::optional_auto_connection (chosen per history)
@@ -399,8 +493,9 @@ struct holder
 {
   bool use_opt = false;
   std::optional<fcppt::signal::auto_connection> s;
-  fcppt::signal::optional_auto_connection o;
   int id = 0; // the connection it owns (0: none) - what the harness itself put there
+#if C11_WITH_EXTRAS
+  fcppt::signal::optional_auto_connection o;
   fcppt::signal::auto_connection &ref() { return use_opt ? o.get_unsafe() : *s; }
   void put(fcppt::signal::auto_connection &&c, int const _id)
   {
@@ -408,17 +503,30 @@ struct holder
     else s.emplace(std::move(c));
     id = _id;
   }
-  fcppt::signal::auto_connection take()
-  {
-    fcppt::signal::auto_connection r{std::move(ref())};
-    clear();
-    return r;
-  }
   void clear() // destroys the auto_connection object (and the connection if it still owns it)
   {
     if (use_opt) o = fcppt::signal::optional_auto_connection{};
     else s.reset();
     id = 0;
+  }
+#else
+  fcppt::signal::auto_connection &ref() { return *s; }
+  void put(fcppt::signal::auto_connection &&c, int const _id)
+  {
+    s.emplace(std::move(c));
+    id = _id;
+  }
+  void clear()
+  {
+    s.reset();
+    id = 0;
+  }
+#endif
+  fcppt::signal::auto_connection take()
+  {
+    fcppt::signal::auto_connection r{std::move(ref())};
+    clear();
+    return r;
   }
 };
 
@@ -428,13 +536,21 @@ struct sig_driver : driver
   using Sig = sig_type<Arity, Res, Unr>;
   std::array<std::unique_ptr<Sig>, NL + 1> S;
   std::array<holder, NE + 1> H;
-  std::array<std::optional<fcppt::signal::auto_connection_container>, NB + 1> B;
+  std::array<std::optional<box_t>, NB + 1> B;
   std::array<std::vector<int>, NB + 1> bid; // the connections the harness pushed into each container
   std::array<bool, NL + 1> has_comb{};     // generator-side precondition of a call (moved-from combiner)
   std::array<std::vector<int>, NL + 1> last_called;
   std::vector<cb_rec> cbs;
   std::vector<comb_rec> combs;
   std::vector<int> unreg;
+  // What every unregister callback saw of the signals while its connection was dying (one entry per
+  // run of an unregister callback, in order): "a connection that is being destroyed is not alive",
+  // and signal.doxygen ("Disconnect callbacks") / examples/signal/unregister.cpp ask the signal
+  // from inside that callback whether it has become empty.  Recorded in every history except
+  // during the reentrant (observed only) operations, where a call may already be in progress.
+  std::vector<std::string> dying;
+  bool view_enabled = true;
+  int cur_index = 0;
   // reentrancy (observed histories only): what the callback of connection `who` does when it runs
   struct pending_t
   {
@@ -444,7 +560,7 @@ struct sig_driver : driver
 
   explicit sig_driver(bool const opt_holders)
   {
-    for (auto &h : H) h.use_opt = opt_holders;
+    for (auto &h : H) h.use_opt = opt_holders && C11_WITH_EXTRAS != 0;
   }
 
   bool llive(int l) const { return S[ix(l)] != nullptr; }
@@ -537,10 +653,15 @@ struct sig_driver : driver
   fcppt::signal::auto_connection connect_to(int const l, int const id)
   {
     if constexpr (Unr)
+    {
+#if C11_WITH_UNREG
       return S[ix(l)]->connect(make_function(id), fcppt::signal::unregister::function{[this, id] {
         unreg.push_back(id);
+        this->dying_view(id);
         this->run_pending(3, id);
       }});
+#endif
+    }
     else
       return S[ix(l)]->connect(make_function(id));
   }
@@ -559,6 +680,7 @@ struct sig_driver : driver
     if (n == "box_ctor") return br(o.b) && !blive(o.b);
     if (n == "box_push") return br(o.b) && blive(o.b) && er(o.e) && full(o.e);
     if (n == "box_dtor") return br(o.b) && blive(o.b);
+    if (C11_CORE != 0) return false;
     // observed only: o.e = the connection whose callback acts, o.e2 = the holder it acts on
     if (n == "reent_connect") return lr(o.l) && callable(o.l) && er(o.e) && conn_alive(o.e) && er(o.e2) && !full(o.e2) && !conn_alive(o.e2);
     if (n == "reent_drop") return lr(o.l) && callable(o.l) && er(o.e) && conn_alive(o.e) && er(o.e2) && full(o.e2) && H[ix(o.e2)].id != o.e;
@@ -616,6 +738,8 @@ struct sig_driver : driver
     auto &s = S[li];
     auto &s2 = S[l2i];
     std::string const &n = o.name;
+    cur_index = index;
+    view_enabled = !(n == "reent_connect" || n == "reent_drop" || n == "unreg_drop");
     if (n == "sig_ctor") { s = make_signal(); has_comb[li] = true; }
     else if (n == "sig_move_ctor") { s = std::make_unique<Sig>(std::move(*s2)); has_comb[li] = has_comb[l2i]; has_comb[l2i] = false; }
     else if (n == "sig_move_assign") { *s = std::move(*s2); has_comb[li] = has_comb[l2i]; has_comb[l2i] = false; }
@@ -659,39 +783,60 @@ struct sig_driver : driver
       H[ix(o.e)].clear();
       pending = pending_t{};
     }
-    else throw std::runtime_error("unknown signal op " + n);
+    else throw harness_error("unknown signal op " + n);
+  }
+
+  // what signal slot k shows now: empty() and, if it is callable, one call
+  std::string sig_record(int const k, int const index, bool const remember)
+  {
+    vj::J r;
+    auto &sp = S[ix(k)];
+    r.kv("live", sp != nullptr);
+    if (sp)
+    {
+      bool const empty = sp->empty();
+      call_out c;
+      cbs.clear();
+      combs.clear();
+      if (callable(k)) c = do_call(k, index);
+      else { c.init = 0; }
+      vj::J jc('['), jm('[');
+      if (remember) last_called[ix(k)].clear();
+      for (auto const &x : cbs)
+      {
+        jc.el_raw(vj::J().kv("c", x.c).kv("args", x.args).kv("r", x.r).str());
+        if (remember) last_called[ix(k)].push_back(x.c);
+      }
+      for (auto const &x : combs) jm.el_raw(vj::J().kv("a", x.a).kv("b", x.b).kv("r", x.r).str());
+      vj::J call;
+      call.kv("done", c.done).kv("init", c.init).kv("args", c.args).kv("ret", c.ret).kv("over", c.over).kv("threw", c.threw).raw("cbs", jc.str()).raw("combs", jm.str());
+      r.kv("empty", empty).raw("call", call.str());
+    }
+    return r.str();
+  }
+
+  // called from inside the unregister callback of connection `id`: what every live signal shows
+  // at that moment (`owner` = the signal that called this connection at the last observation; only
+  // a hint for the reader of a report, the judge does not use it)
+  void dying_view(int const id)
+  {
+    if (!view_enabled) return;
+    int owner = 0;
+    for (int k = 1; k <= NL; ++k)
+      if (llive(k))
+        for (int c : last_called[ix(k)])
+          if (c == id) owner = k;
+    vj::J sigs_j('[');
+    for (int k = 1; k <= NL; ++k) sigs_j.el_raw(sig_record(k, cur_index + 1000 * static_cast<int>(dying.size() + 1), false));
+    cbs.clear();
+    combs.clear();
+    dying.push_back(vj::J().kv("c", id).kv("owner", owner).raw("sigs", sigs_j.str()).str());
   }
 
   std::string observe(int const index, op const &) override
   {
     vj::J lists_j('[');
-    for (int k = 1; k <= NL; ++k)
-    {
-      vj::J r;
-      auto &sp = S[ix(k)];
-      r.kv("live", sp != nullptr);
-      if (sp)
-      {
-        bool const empty = sp->empty();
-        call_out c;
-        cbs.clear();
-        combs.clear();
-        if (callable(k)) c = do_call(k, index);
-        else { c.init = 0; }
-        vj::J jc('['), jm('[');
-        last_called[ix(k)].clear();
-        for (auto const &x : cbs)
-        {
-          jc.el_raw(vj::J().kv("c", x.c).kv("args", x.args).kv("r", x.r).str());
-          last_called[ix(k)].push_back(x.c);
-        }
-        for (auto const &x : combs) jm.el_raw(vj::J().kv("a", x.a).kv("b", x.b).kv("r", x.r).str());
-        vj::J call;
-        call.kv("done", c.done).kv("init", c.init).kv("args", c.args).kv("ret", c.ret).kv("over", c.over).kv("threw", c.threw).raw("cbs", jc.str()).raw("combs", jm.str());
-        r.kv("empty", empty).raw("call", call.str());
-      }
-      lists_j.el_raw(r.str());
-    }
+    for (int k = 1; k <= NL; ++k) lists_j.el_raw(sig_record(k, index, true));
     cbs.clear();
     combs.clear();
     std::vector<int> el, hold;
@@ -699,15 +844,20 @@ struct sig_driver : driver
     for (int j = 1; j <= NE; ++j) hold.push_back(H[ix(j)].id);
     vj::J boxes_j('[');
     for (int b = 1; b <= NB; ++b) boxes_j.el_raw(vj::J().kv("live", blive(b)).kv("ids", bid[ix(b)]).str());
-    std::string const res = ",\"lists\":" + lists_j.str() + ",\"elive\":" + vj::arr(el) + ",\"unreg\":" + vj::arr(unreg) + ",\"hold\":" + vj::arr(hold) + ",\"boxes\":" + boxes_j.str();
+    vj::J dying_j('[');
+    for (auto const &v : dying) dying_j.el_raw(v);
+    std::string const res = ",\"lists\":" + lists_j.str() + ",\"elive\":" + vj::arr(el) + ",\"unreg\":" + vj::arr(unreg) + ",\"hold\":" + vj::arr(hold) + ",\"boxes\":" + boxes_j.str() + ",\"dying\":" + dying_j.str();
     unreg.clear();
+    dying.clear();
     return res;
   }
 
-  bool random_op(vj::Rng &rng, op &o, int const level) const override
+  bool random_op(vj::Rng &rng, op &o, int const level, bool const dense) const override
   {
     static std::vector<std::pair<char const *, int>> const w0 = {
         {"sig_ctor", 4}, {"sig_move_ctor", 3}, {"sig_move_assign", 5}, {"sig_dtor", 2}, {"connect", 9}, {"disconnect", 5}};
+    static std::vector<std::pair<char const *, int>> const wd = {
+        {"sig_ctor", 2}, {"sig_move_ctor", 1}, {"sig_move_assign", 1}, {"sig_dtor", 1}, {"connect", 16}, {"disconnect", 2}};
     static std::vector<std::pair<char const *, int>> const w = {
         {"sig_ctor", 4}, {"sig_move_ctor", 3}, {"sig_move_assign", 5}, {"sig_dtor", 2}, {"connect", 10}, {"disconnect", 4},
         {"hold_move", 2}, {"hold_assign", 2}, {"box_ctor", 1}, {"box_push", 3}, {"box_dtor", 1}};
@@ -715,7 +865,7 @@ struct sig_driver : driver
         {"sig_ctor", 4}, {"sig_move_ctor", 2}, {"sig_move_assign", 3}, {"sig_dtor", 1}, {"connect", 10}, {"disconnect", 3},
         {"hold_move", 1}, {"hold_assign", 1}, {"box_ctor", 1}, {"box_push", 2}, {"box_dtor", 1},
         {"reent_connect", 5}, {"reent_drop", 5}, {"unreg_drop", 3}};
-    std::string const kind = weighted(rng, level == 2 ? wo : level == 1 ? w : w0);
+    std::string const kind = weighted(rng, dense ? wd : level == 2 ? wo : level == 1 ? w : w0);
     auto ls = sigs(true), ds = sigs(false), fh = holders(true), eh = holders(false), lb = boxes(true), db = boxes(false);
     o = op{};
     o.name = kind;
@@ -728,7 +878,12 @@ struct sig_driver : driver
       do o.l2 = pick(rng, ls); while (o.l2 == o.l);
     }
     else if (kind == "sig_dtor") { if (ls.empty()) return false; o.l = pick(rng, ls); }
-    else if (kind == "connect") { if (eh.empty() || ls.empty()) return false; o.e = pick(rng, eh); o.l = pick(rng, ls); }
+    else if (kind == "connect")
+    {
+      if (eh.empty() || ls.empty()) return false;
+      o.e = pick(rng, eh);
+      o.l = dense && rng.below(4) != 0 ? ls.front() : pick(rng, ls);
+    }
     else if (kind == "disconnect") { if (fh.empty()) return false; o.e = pick(rng, fh); }
     else if (kind == "hold_move") { if (fh.empty() || eh.empty()) return false; o.e = pick(rng, eh); o.e2 = pick(rng, fh); }
     else if (kind == "hold_assign")
@@ -780,6 +935,7 @@ struct sig_driver : driver
     return true;
   }
 };
+#endif // C11_WITH_SIGNALS
 
 struct flavour
 {
@@ -800,25 +956,46 @@ flavour parse_flavour(std::string const &fl)
   if (r == "sig") f.arity = 1;
   else if (r == "sig0") f.arity = 0;
   else if (r == "sig2") f.arity = 2;
-  else throw std::runtime_error("unknown flavour " + fl);
+  else throw harness_error("unknown flavour " + fl);
   return f;
 }
 
+// nullptr: this unit does not contain the flavour
+#if C11_WITH_SIGNALS
 template <int A>
 std::unique_ptr<driver> make_sig(flavour const &f, bool const opt)
 {
+#if C11_WITH_UNREG
   if (f.res && f.unr) return std::make_unique<sig_driver<A, true, true>>(opt);
-  if (f.res) return std::make_unique<sig_driver<A, true, false>>(opt);
   if (f.unr) return std::make_unique<sig_driver<A, false, true>>(opt);
-  return std::make_unique<sig_driver<A, false, false>>(opt);
+#endif
+#if C11_WITH_PLAIN
+  if (f.res && !f.unr) return std::make_unique<sig_driver<A, true, false>>(opt);
+  if (!f.unr) return std::make_unique<sig_driver<A, false, false>>(opt);
+#endif
+  (void)opt;
+  return nullptr;
 }
+#endif
 
 std::unique_ptr<driver> make_driver(flavour const &f, bool const opt_holders)
 {
-  if (f.list) return std::make_unique<list_driver>();
+  if (f.list)
+  {
+#if C11_WITH_LIST
+    return std::make_unique<list_driver>();
+#else
+    return nullptr;
+#endif
+  }
+#if C11_WITH_SIGNALS
   if (f.arity == 0) return make_sig<0>(f, opt_holders);
   if (f.arity == 1) return make_sig<1>(f, opt_holders);
   return make_sig<2>(f, opt_holders);
+#else
+  (void)opt_holders;
+  return nullptr;
+#endif
 }
 
 // ------------------------------------------------------------------------------ running
@@ -838,21 +1015,62 @@ struct runner
       // possible).  Every other precondition depends on the harness' own bookkeeping only: there
       // a failure is a bug of the script's producer.
       if (o.name != "iter_inc" && o.name != "iter_dec")
-        throw std::runtime_error("operation outside the API precondition: " + o.name);
+        throw harness_error("operation outside the API precondition: " + o.name);
       o.mode = o.name == "iter_inc" ? 1 : 2;
       o.name = "iter_refused";
     }
     ++index;
     vj::begin_call(op_prefix(index, o));
-    if (o.name != "iter_refused") d.apply(o, index);
-    std::string const obs = d.observe(index, o);
-    vj::end_call(obs + "}");
+    try
+    {
+      if (o.name != "iter_refused") d.apply(o, index);
+      std::string const obs = d.observe(index, o);
+      vj::end_call(obs + "}");
+    }
+    catch (harness_error const &)
+    {
+      throw;
+    }
+    catch (std::exception const &e)
+    {
+      // No function of the harness throws anything else: this exception comes out of the driven
+      // library operation (none of them is documented to throw).  The line of the operation stays
+      // truncated, the check turns it into the rejection of this operation ("crash").
+      std::fprintf(stderr, "exception thrown by the code under test during %s: %s\n", o.name.c_str(), e.what());
+      vj::crash_line("exception", 0);
+      std::_Exit(67);
+    }
   }
 };
 
 void reset_line(long long h, flavour const &f, char const *mode, bool observed, bool opt_holders)
 {
-  vj::line(vj::J().kv("e", "reset").kv("h", h).kv("fl", f.name).kv("list", f.list).kv("res", f.res).kv("unr", f.unr).kv("arity", f.arity).kv("observed", observed).kv("opt_holders", opt_holders).kv("mode", mode));
+  vj::line(vj::J().kv("e", "reset").kv("h", h).kv("fl", f.name).kv("list", f.list).kv("res", f.res).kv("unr", f.unr).kv("arity", f.arity).kv("observed", observed).kv("opt_holders", opt_holders).kv("core", C11_CORE != 0).kv("mode", mode));
+}
+
+// Watchdog per history.  A history of <= 50 operations takes milliseconds of CPU; an endless loop in
+// the code under test burns CPU.  The limit is therefore on the CPU time of this process (ITIMER_PROF),
+// not on wall-clock time: on a shared, heavily oversubscribed machine a healthy process can be off
+// the CPU for many seconds, and a wall-clock alarm would then report a hang that is none (observed at
+// a load average of 300).  A generous wall-clock alarm remains for a process that blocks without
+// using CPU.
+constexpr unsigned history_cpu_seconds = 4;
+constexpr unsigned history_wall_seconds = 600;
+
+void on_cpu_limit(int) { vj::on_signal(SIGALRM); } // records {"e":"crash","what":"hang"}, exit code 68
+
+void watchdog(bool const on)
+{
+  static bool installed = false;
+  if (!installed)
+  {
+    std::signal(SIGPROF, on_cpu_limit);
+    installed = true;
+  }
+  itimerval t{};
+  t.it_value.tv_sec = on ? static_cast<time_t>(history_cpu_seconds) : 0;
+  setitimer(ITIMER_PROF, &t, nullptr);
+  alarm(on ? history_wall_seconds : 0U);
 }
 
 void cleanup(runner &r, unsigned order, vj::Rng *rng)
@@ -877,27 +1095,33 @@ int record(char const *out, std::uint64_t seed, long long first, long long count
     // others every second signal history and every third list history is "extended" (also the
     // operations the statement of C11 does not name: unlink, iterators, owners of connections)
     long long const k = h / 2;
-    bool const observed = !f.list && k % 5 == 4;
-    int const level = observed ? 2 : f.list ? (k % 3 == 2 ? 1 : 0) : (k % 2 == 1 ? 1 : 0);
+    // (a core unit drives only the operations the statement names, on the flavours it contains)
+    bool const observed = C11_CORE == 0 && !f.list && k % 5 == 4;
+    // every fourth history of a flavour is "dense" (in-scope operations only): the property's bound
+    // of 8 elements / connections is reached within ONE list / signal
+    bool const dense = !observed && k % 4 == 1;
+    int const level = C11_CORE != 0 || dense ? 0 : observed ? 2 : f.list ? (k % 3 == 2 ? 1 : 0) : (k % 2 == 1 ? 1 : 0);
     bool const opt_holders = (h / 24) % 2 == 1;
+    std::unique_ptr<driver> d = make_driver(f, opt_holders);
+    if (!d) continue;
     reset_line(h, f, "record", observed, opt_holders);
-    alarm(20);
+    watchdog(true);
     {
-      std::unique_ptr<driver> d = make_driver(f, opt_holders);
       runner r(*d);
-      int const want = static_cast<int>(rng.range(1, maxlen));
+      int const want = static_cast<int>(rng.range(dense ? maxlen / 2 : 1, maxlen));
       int guard = 0;
       while (guard++ < 20 * maxlen)
       {
         // leave room for the destruction of what is alive
         if (r.index + d->alive_count() + 2 > want) break;
         op o;
-        if (!d->random_op(rng, o, level)) continue;
+        if (!d->random_op(rng, o, level, dense)) continue;
         r.step(o);
       }
       cleanup(r, 0, &rng);
+      d.reset();
     }
-    alarm(0);
+    watchdog(false);
   }
   vj::line(vj::J().kv("e", "end").kv("histories", count));
   vj::close();
@@ -918,9 +1142,10 @@ int replay(std::string const &fl, char const *scripts, char const *out, long lon
     for (auto const &x : s->a)
       if (x->str("op").rfind("reent_", 0) == 0 || x->str("op") == "unreg_drop") observed = true;
     reset_line(h, f, "replay", observed, opt_holders);
-    alarm(20);
+    watchdog(true);
     {
       std::unique_ptr<driver> d = make_driver(f, opt_holders);
+      if (!d) throw harness_error("this unit does not contain flavour " + fl);
       runner r(*d);
       for (auto const &x : s->a)
       {
@@ -936,7 +1161,7 @@ int replay(std::string const &fl, char const *scripts, char const *out, long lon
       }
       cleanup(r, static_cast<unsigned>(h), nullptr);
     }
-    alarm(0);
+    watchdog(false);
     ++h;
   }
   vj::line(vj::J().kv("e", "end").kv("histories", h - offset));
@@ -944,6 +1169,7 @@ int replay(std::string const &fl, char const *scripts, char const *out, long lon
   return 0;
 }
 
+#if C11_WITH_PLAIN && C11_WITH_EXTRAS
 // A callback that destroys its OWN connection while it runs.  signal.doxygen does not say whether
 // that is allowed; the outcome (exit code 66 = sanitizer report) is recorded as an observation.
 int probe_drop_self()
@@ -961,6 +1187,7 @@ int probe_drop_self()
   std::printf("probe_drop_self: second call ran %d callbacks\n", calls);
   return 0;
 }
+#endif
 }
 
 int main(int argc, char **argv)
@@ -970,7 +1197,9 @@ try
   if (mode == "record" && argc == 7)
     return record(argv[2], std::strtoull(argv[3], nullptr, 10), std::atoll(argv[4]), std::atoll(argv[5]), std::atoi(argv[6]));
   if (mode == "replay" && (argc == 5 || argc == 6)) return replay(argv[2], argv[3], argv[4], argc == 6 ? std::atoll(argv[5]) : 0);
+#if C11_WITH_PLAIN && C11_WITH_EXTRAS
   if (mode == "probe_drop_self") return probe_drop_self();
+#endif
   std::fprintf(stderr, "usage: c11_intrusive record OUT seed first count maxlen | replay FLAVOUR SCRIPTS OUT [first] | probe_drop_self\n");
   return 3;
 }
